@@ -27,4 +27,47 @@ PROPS = {
         "required_hooks": ["invoke.reserved", "invoke.timeoutFired", "handleReset.flowsCancelled"],
         "assumptions": COMMON_ASSUME,
     },
+    "C01": {
+        "level": "exploration",
+        "engine": "G",
+        "technique": "runtime monitoring: generated invocation histories with uniquely tagged payloads on the real in-process stack; byte-exact differential oracle at the client boundary (runtime side and caller side); race-detector build",
+        "level_text": "histories of 3-8 invocations per emulator instance (sizes 0..limit, JSON/binary/invalid-UTF-8/NUL/equal-content payloads, decreasing and increasing sizes, responses and errors, positions after crashed / timed-out / oversized / init-failed invocations, client contexts incl. non-ASCII); every event and response carries a unique tag so that any leak between invocations is attributable; oracle: event bytes at the runtime, fresh id, ARN, client context, deadline window, caller bytes == posted bytes, one write, no late write, no cross-talk, exactly one outcome",
+        "level_note": "drives EmulatorAPI.Invoke (what the HTTP front end calls) with a recording ResponseWriter; header bytes that net/http itself rewrites (CR/LF/NUL) are not generated; sampled histories, enumerated size ladders",
+        "rule": "one case = one history of invocations on a fresh emulator instance (enumerated ladders per payload kind x mode, positions after each failure kind, limit-sized history, plus seed-selected random histories); distinct = distinct (mode,size,outcome) sequence + normalised supervisor/caller trace; non-trivial = every case (each runs >= 2 invocations through the full stack)",
+        "required_clauses": ["event_exact", "body_exact", "fresh_id", "deadline", "client_context", "no_cross_talk", "crash_body", "timeout_status", "initerror_body"],
+        "max_shards": 8,
+        "assumptions": COMMON_ASSUME,
+    },
+    "C14": {
+        "level": "exploration",
+        "engine": "G",
+        "technique": "runtime monitoring: boundary-size histories (limit-2..limit+2, 0, 1, limit/2, 2*limit) on the real in-process stack with byte-exact oracle and supervisor-log monitor for absence of a reset; race-detector build",
+        "level_text": "response and event sizes in a window around 6 MiB + 100 at every position of 3-4 step histories; oracle: <= limit delivered intact with 202; > limit answered 413 RequestEntityTooLarge to the runtime and Function.ResponseSizeTooLarge (naming both sizes) to the caller; no Exec/Terminate/Kill before the next invocation, which is served by the same process; events longer than the limit arrive cut at exactly the limit",
+        "level_note": "same engine and trust as C01; sizes enumerated around the boundary, random histories in the thorough tier",
+        "rule": "one case = one history with a boundary-sized response or event at a chosen position; distinct = distinct (mode,size,outcome) sequence + normalised supervisor/caller trace; non-trivial = every case (each contains at least one size within 2 bytes of the limit or beyond it)",
+        "required_clauses": ["oversize_413", "oversize_sizes", "at_limit_intact", "event_cut_at_limit", "same_environment"],
+        "max_shards": 8,
+        "assumptions": COMMON_ASSUME,
+    },
+    "C03": {
+        "level": "exploration",
+        "engine": "G",
+        "technique": "runtime monitoring: conductor-enumerated total orders of register/next/invoke steps of puppet parties over real HTTP; ordering oracle on global sequence numbers (call.seq / ret.seq); race-detector build",
+        "level_text": "all linear extensions of the protocol's step partial order are executed for runtime + <=2 external + <=1 internal extensions with the first invocation placed at every position (exhaustive for the listed small configurations), every subscription assignment for (2 external, 1 internal) with each party held to the last position, and seed-selected orders for 3 external + 2 internal; a step is released only when the previous one returned or the party is observed parked (state Ready in the emulator's own snapshot). Oracle: launch set == non-directory entries (names with spaces / UTF-8 / dot-files, directories present), runtime exec after every external register, no delivery before every accepted party issued its first next, late registration refused with RegistrationClosed, first invocation succeeds.",
+        "level_note": "internal extensions are modelled as extra HTTP connections of the runtime process; orders within one emulator method are not enumerated (API-step granularity)",
+        "rule": "one case = (subscription set per extension, directory entries, one total order of the API steps); distinct = distinct (configuration, order); non-trivial = every case (each drives a full init with >= 1 party and the first invocation)",
+        "required_clauses": ["no_delivery_before_all_arrived", "launch_exactly_once", "register_before_runtime_exec", "late_register_refused", "first_invocation_succeeds", "non_subscriber_not_served"],
+        "exhaustive": {"quick": False, "thorough": False},  # exhaustive per listed small configuration; the sampled 3+2 part is not
+        "assumptions": COMMON_ASSUME,
+    },
+    "C04": {
+        "level": "exploration",
+        "engine": "G",
+        "technique": "runtime monitoring: conductor-enumerated completion orders (runtime response, runtime next, each subscriber's next) over consecutive invocations with puppet parties over real HTTP; exactly-once / ordering / equality oracle on the event log; race-detector build",
+        "level_text": "for every subscription set over 0..3 external (+ internal) extensions and every order in which the runtime responds, returns to next and each INVOKE subscriber returns to next (all linear extensions; each party held last), over 3-5 consecutive invocations in response and error mode: each subscriber gets exactly one INVOKE event with the runtime's request id and ARN, a deadline within 25 ms of the runtime's and the caller's trace value; non-subscribers get none; the invoke call has not returned when the last step is issued and returns after it; no party is served while nothing is in flight; per-party id sequences equal the caller order",
+        "level_note": "API-step granularity as for C03; the deadline tolerance absorbs the code's two mono->epoch conversions",
+        "rule": "one case = (subscription sets, per-invocation completion orders, response/error modes); distinct = distinct (configuration, orders); non-trivial = every case (3+ invocations through the full stack)",
+        "required_clauses": ["subscriber_gets_event", "event_same_id", "event_deadline", "event_trace", "no_early_completion", "completes_after_all", "non_subscriber_silent", "in_order_exactly_once"],
+        "assumptions": COMMON_ASSUME,
+    },
 }
